@@ -330,7 +330,9 @@ func c14Fresh(c *core.Ctx, args []string) int {
 	var b bytes.Buffer
 	prev := ""
 	var handle1 *mimetype.MIME
-	for k, a := range args {
+	k := -1 // index among the extensions that entered the tree (as in treeModel.apply)
+	for _, a := range args {
+		k++
 		v, _ := strconv.Atoi(a)
 		op := opFromInt(v)
 		name, ext := extName(k), fmt.Sprintf(".e%d", k+1)
@@ -351,6 +353,11 @@ func c14Fresh(c *core.Ctx, args []string) int {
 			aliases[0] = "text/html"
 		}
 		pred := extPreds[op.Pred].f
+		if extAttach[op.Attach] == "detached-result" {
+			mimetype.Detect([]byte("\x00\x01 no format claims these bytes")).Extend(pred, name, ext, aliases...)
+			k-- // not part of the tree: the next extension re-uses this index
+			continue
+		}
 		parentName, target, viaHandle := extTarget(op, prev, handle1)
 		if viaHandle {
 			parentName = bare(handle1.String())
